@@ -8,6 +8,7 @@ Statement kinds (key "s"):
   range kind form b | unsupported u
 """
 import json
+import re
 
 
 class PGen:
@@ -124,6 +125,7 @@ class PGen:
         "ints": ["kv:=", "k:=", "_v:=", "none", "kv=", "k="],
         "arr": ["kv:=", "k:=", "_v:=", "none", "kv="],
         "map1": ["kv:=", "k:=", "_v:=", "none", "kv="],
+        "map2": ["k:=", "kv:="],
         "chan": ["k:=", "none", "k="],
         "n": ["k:=", "none", "k="],
         "anys": ["kv:=", "_v:="],
@@ -131,11 +133,11 @@ class PGen:
 
     def rangestmt(self, ctx, size):
         r = self.rng
-        kinds = ["str", "ints", "arr", "map1", "chan", "anys"] + (["n"] if "rangeint" in self.feats else [])
+        kinds = ["str", "ints", "arr", "map1", "map2", "chan", "anys"] + (["n"] if "rangeint" in self.feats else [])
         kind = r.choice(kinds)
         form = r.choice(self.RANGE_FORMS[kind])
         s = {"s": "range", "kind": kind, "form": form, "id": self.fresh(), "uid": self.fresh(),
-             "mutate": kind in ("ints", "arr") and r.random() < 0.3, "closure": False}
+             "mutate": (kind in ("ints", "arr") and r.random() < 0.3) or (kind == "n" and r.random() < 0.5), "closure": False}
         if r.random() < 0.15:
             # a range loop inside a plain closure nested in the generator: trivial body only
             s["closure"] = True
@@ -405,6 +407,8 @@ class Render:
             return "tr.E(%d)" % s["id"]
         if k == "yield":
             return self.yield_("tr.V(%d)" % s["id"])
+        if k == "yieldx":
+            return self.yield_(s["x"])
         raise ValueError(s)
 
     def yield_(self, e):
@@ -491,7 +495,7 @@ class Render:
         else:
             raise ValueError(s)
 
-    SRC = {"str": "tr.Str(%d)", "ints": "tr.Ints(%d)", "arr": "tr.Arr(%d)", "map1": "tr.Map1(%d)",
+    SRC = {"str": "tr.Str(%d)", "ints": "tr.Ints(%d)", "arr": "tr.Arr(%d)", "map1": "tr.Map1(%d)", "map2": "tr.Map2(%d)",
            "chan": "tr.Chan(%d)", "n": "tr.N(%d)", "anys": "tr.Anys(%d)"}
 
     def rangestmt(self, s, ind):
@@ -502,7 +506,7 @@ class Render:
         if s["closure"]:
             e(ind, "func() {")
             ind += 1
-        if s.get("mutate") or kind == "arr":
+        if s.get("mutate") or kind in ("arr", "map2"):
             # arrays are always bound to a variable first: ranging over an unaddressable array
             # does not build after rewriting (recorded finding F4, kept in the findings corpus)
             e(ind, "c%d := %s" % (i, src))
@@ -519,14 +523,27 @@ class Render:
                 "kv=": "for %s, %s = range %s {" % (k, v, src), "k=": "for %s = range %s {" % (k, src)}[form]
         e(ind, head)
         uid = s["uid"]
-        if form in ("kv:=", "k:=", "kv=", "k="):
+        if kind == "map2":
+            # delete the other entry: exactly one iteration in any order; the key itself is not logged
+            e(ind + 1, "delete(c%d, 3-%s)" % (i, k))
+            e(ind + 1, "tr.U(%d, len(c%d))" % (uid, i))
+            if form == "kv:=":
+                e(ind + 1, "tr.U(%d, %s/%s)" % (uid, v, k))
+        elif form in ("kv:=", "k:=", "kv=", "k="):
             e(ind + 1, "tr.U(%d, %s)" % (uid, k))
-        if form in ("kv:=", "_v:=", "kv="):
+        if kind != "map2" and form in ("kv:=", "_v:=", "kv="):
             if kind == "anys":
                 e(ind + 1, "tr.UA(%d, %s)" % (uid, v))
             else:
                 e(ind + 1, "tr.U(%d, int(%s))" % (uid, v))
-        if s.get("mutate"):
+        if s.get("mutate") and kind == "n":
+            # the bound and the iteration variable are written by the body: Go evaluated the bound once
+            # and hands the body a fresh copy of the iteration value
+            e(ind + 1, "c%d -= 2" % i)
+            if form == "k:=":
+                e(ind + 1, "%s += 3" % k)
+                e(ind + 1, "tr.U(%d, %s)" % (uid, k))
+        elif s.get("mutate"):
             if kind == "ints":
                 e(ind + 1, "if len(c%d) > 0 { c%d[len(c%d)-1] += 1000; c%d = append(c%d, 1) }" % (i, i, i, i, i))
             else:
@@ -601,8 +618,38 @@ def render_func(name, body, mode):
     return "\n".join(r.lines)
 
 
-def render_file(pkg, funcs, mode):
+# ways of importing the API in a source file (C11): name of the co import, name of an already present seq import
+IMPORT_STYLES = {
+    "dot": (".", None),
+    "default": ("", None),
+    "renamed": ("gen", None),
+    "dot+seq": (".", ""),
+    "default+seqrenamed": ("", "rt"),
+    "renamed+seq": ("gen", ""),
+}
+
+
+def apply_import_style(text, style):
+    """Rewrite a dot-import rendering of a source file into another import style."""
+    co, sq = IMPORT_STYLES[style]
+    if co != ".":
+        q = (co or "co") + "."
+        text = re.sub(r"(?<![\w.])(YieldFrom|Yield)\(", lambda m: q + m.group(1) + "(", text)
+        text = re.sub(r"(?<![\w.])Iter\[", q + "Iter[", text)
+    imp = '\t%s"github.com/goghcrow/go-co"' % ("" if co == "" else co + " ")
+    lines = [imp]
+    use = ""
+    if sq is not None:
+        lines.append('\t%s"github.com/goghcrow/go-co/seq"' % ("" if sq == "" else sq + " "))
+        use = "\nvar _ = %s.Normal[int]\n" % (sq or "seq")
+    text = text.replace('\t. "github.com/goghcrow/go-co"', "\n".join(lines), 1)
+    return text.replace("var _ = tr.E\n", "var _ = tr.E\n" + use, 1)
+
+
+def render_file(pkg, funcs, mode, style="dot"):
     """funcs: list of (name, body)."""
+    if mode == "co" and style != "dot":
+        return apply_import_style(render_file(pkg, funcs, mode), style)
     out = ["package %s" % pkg, ""]
     if mode == "co":
         out += ['import (', '\t. "github.com/goghcrow/go-co"', '\t"genmod/tr"', ')', ""]
